@@ -148,8 +148,16 @@ def p5_shape_change(prog):
             class _L(dict):
                 pass
             lc = {'ret': lv, 'ln': mod['ln']}
-            if S(l_ix) != push['ret']:
-                once('location-index', lc['ln'], 'new location does not use the row index returned by the push')
+            # what the push returns: the row index (length before the push) or — after a contract change — the row
+            # count (one more); read off the callee, the caller must use it accordingly
+            off = push_return_offset(prog, push)
+            if off is None:
+                once('location-index', lc['ln'], 'cannot relate the value returned by %s to the row it pushed' % push['name'])
+            else:
+                want = pathsem.lin(push['ret']) - Lin.k(off)
+                got = pathsem.lin(l_ix)
+                if str(got) != str(want):
+                    once('location-index', lc['ln'], 'new location does not use the row index of the pushed row (the push returns %s, the location stores %s)' % ('the row index' if off == 0 else 'the row index + %d' % off, pathsem.tstr(l_ix)[:60]))
             ida = S(l_id)
             if not (isinstance(ida, tuple) and ida[0] == 'call' and ida[1].endswith('::identifier') and S(ida[2][0]) == gmi['ret']):
                 once('location-identifier', lc['ln'], 'new location does not use the target archetype\'s identifier')
@@ -161,6 +169,38 @@ def p5_shape_change(prog):
         if not n_move or not n_stay:
             once('branch', None, 'bit test does not control a branch (moving paths: %d, staying paths: %d)' % (n_move, n_stay))
     return r
+
+
+_PUSH_OFF = {}
+
+
+def push_return_offset(prog, ev):
+    """value returned by an Archetype push method minus the index of the row it pushed (= length before the push):
+    0 for `self.length - 1` after the increment, 1 for the new row count; None if not a constant."""
+    tgt = ev['f'].get('res') or ev['f']
+    dp = tgt.get('dp')
+    key = (id(prog), dp)
+    if key in _PUSH_OFF:
+        return _PUSH_OFF[key]
+    out = None
+    f = prog.fns.get(dp)
+    if f is not None:
+        li = adt_field_index(prog, 'archetype::Archetype', 'length')
+        E = pathsem.analyse(prog, f)
+        offs = set()
+        for p in E.paths:
+            if p.ended != 'return':
+                continue
+            L = pathsem.lin(p.ret)
+            atoms = [t for t in L.terms if pathsem.is_field_of(t, 'archetype::Archetype', li)]
+            if len(L.terms) == 1 and len(atoms) == 1 and L.terms[atoms[0]] == 1:
+                offs.add(L.const)
+            else:
+                offs.add(None)
+        if len(offs) == 1 and None not in offs and not E.truncated:
+            out = next(iter(offs))
+    _PUSH_OFF[key] = out
+    return out
 
 
 def field_of_self(prog, body, op, field):
